@@ -493,6 +493,14 @@ func (g *sessGen) next() *sessStep {
 					st.C.M = "createIndex"
 					st.C.Keys = bson.D{{Key: g.key(), Value: int32(1 - 2*r.N(2))}}
 					st.C.Unique = r.P(60)
+					if r.P(30) {
+						// a filter that raises an error only for documents passing its first condition: the
+						// build fails late (after it has added documents) for another reason than uniqueness
+						st.C.Unique = r.P(20)
+						f := g.key()
+						st.C.Partial = bson.D{{Key: f, Value: bson.D{{Key: []string{"$gt", "$gte", "$exists"}[r.N(3)], Value: int32(1)}}},
+							{Key: g.key() + "z", Value: bson.D{{Key: []string{"$exits", "$foo"}[r.N(2)], Value: true}}}}
+					}
 				}
 			}
 		default:
@@ -606,6 +614,9 @@ func sessStepOfReq(r reqObj) (st *sessStep, err error) {
 	}
 	c.Unique = r.boolean("unique")
 	c.Name = r.str("name")
+	if has("partial") {
+		c.Partial = r.doc("partial")
+	}
 	if ms, ok := r["models"].([]interface{}); ok {
 		c.Models = decodeAPICall(r).Models
 		_ = ms
